@@ -26,7 +26,7 @@ type provCtx struct {
 	noInline bool
 	// calls records the full names of the functions applied while rendering
 	calls map[string]bool
-	seen map[ssa.Value]bool
+	seen  map[ssa.Value]bool
 }
 
 func (c *provCtx) child(env map[*ssa.Parameter]string) *provCtx {
